@@ -12,7 +12,7 @@ use average::{concatenate, Covariance, Estimate, Kurtosis, Max, Mean, Min, Momen
 use rayon::prelude::*;
 use serde_json::{json, Value};
 
-#[derive(Clone, Debug)]
+#[derive(Clone, Debug, PartialEq)]
 pub enum IOp<I> {
     AddLoop(Vec<I>),
     ExtendVals(Vec<I>),
@@ -390,6 +390,7 @@ pub fn plan(tier: Tier) -> Plan {
     checks.push(ing::<WeightedMeanWithError>("w3", wp, l));
     checks.push(ing::<Covariance>("corr3", vec![(1., 5.), (2., 4.1), (-3., 0.1)], l));
     checks.push(ing::<Covariance>("off3", vec![(1e9 - 3., -1e6 + 0.5), (1e9 + 4., -1e6 - 2.), (1e9 + 13., -1e6)], l));
+    checks.push(cross(IngestSpec::<U<Variance>> { alpha_name: "tri".into(), alpha: sub_alphabet("tri", 3), max_len: 4, max_piece: 3 }, 6));
     for which in ["CatMinMax", "CatVarQ", "Cat3", "Cat4"] {
         for a in ["tri", "qties", "off9"] {
             checks.push(Box::new(CatCheck { which, alpha: a, max_len: if q { 7 } else { 9 } }));
